@@ -9,6 +9,7 @@ import LP.Driver.Roots
 import LP.Driver.Alg
 import LP.Driver.Value
 import LP.Driver.Hist
+import LP.Driver.Eval
 import Std.Data.HashMap
 open LP LP.Driver
 
@@ -43,6 +44,7 @@ def checkLine (line : String) : String × String × Verdict :=
         | "alg" => checkAlg op args r
         | "val" => checkVal op args r
         | "hist" => checkHist op args r
+        | "ev" => checkEval op args r
         | "ugcd" => checkUGcd op args r
         | "refs" => checkRefs args r
         | _ => Verdict.skip s!"unknown family {fam}"
